@@ -61,3 +61,90 @@ func c01WeightBudget(r *core.Run, p *core.Program, rule string) {
 	r.Check(inits == 1 && charges == 1, rule, "weight-budget/writers", "-", "one initialisation and one charge of the tapscript budget",
 		fmt.Sprintf("tapscript budget: %d initialisations and %d charges found (expected 1 and 1)", inits, charges))
 }
+
+// hashFeed lists, in program order, what fn feeds into the hasher h (other than the final Sum): Write calls
+// ("bytes:<expr>"), the CompactSize writer ("vlen:<expr>") and any other module function that is handed the
+// hasher ("call:<name>(<other args>)").
+func hashFeed(fn *ssa.Function, h ssa.Value, sum *ssa.Call) []string {
+	var seq []string
+	for _, b := range fn.Blocks {
+		for _, ins := range b.Instrs {
+			c, ok := ins.(*ssa.Call)
+			if !ok || c == sum {
+				continue
+			}
+			if c.Call.IsInvoke() && c.Call.Value == h {
+				if c.Call.Method.Name() == "Write" {
+					seq = append(seq, "bytes:"+an.Anon(an.Expr(c.Call.Args[0])))
+				} else if c.Call.Method.Name() != "Sum" {
+					seq = append(seq, "method:"+c.Call.Method.Name())
+				}
+				continue
+			}
+			var others []string
+			fed := false
+			for _, a := range c.Call.Args {
+				if c02Strip(a) == h {
+					fed = true
+				} else {
+					others = append(others, an.Anon(an.Expr(a)))
+				}
+			}
+			if !fed {
+				continue
+			}
+			if an.CallName(c) == "lib/btc.WriteVlen" {
+				seq = append(seq, "vlen:"+strings.Join(others, ","))
+			} else {
+				seq = append(seq, "call:"+an.CallName(c)+"("+strings.Join(others, ",")+")")
+			}
+		}
+	}
+	return seq
+}
+
+// c01AnnexHash: BIP341 commits to the annex through sha256(compact_size(len(annex)) || annex).  The value
+// stored as the execution data's annex hash in the witness-program dispatcher is a fresh Sum(nil) of a plain
+// SHA-256 fed with exactly that, where annex is the element popped from the witness stack.
+func c01AnnexHash(r *core.Run, p *core.Program, rule string) {
+	const key = "annex-hash/definition"
+	fn := p.Func("lib/script.(*SigChecker).VerifyWitnessProgram")
+	if fn == nil {
+		r.Fail(rule, key, "-", "witness program dispatcher not found")
+		return
+	}
+	n := 0
+	an.Instrs(fn, func(i ssa.Instruction) {
+		st, ok := i.(*ssa.Store)
+		if !ok {
+			return
+		}
+		fa, ok := st.Addr.(*ssa.FieldAddr)
+		if !ok || an.FieldNameOf(fa) != "M_annex_hash" {
+			return
+		}
+		if c, isC := st.Val.(*ssa.Const); isC && c.Value == nil {
+			return
+		}
+		n++
+		pos := p.Pos(st.Pos())
+		sum, ok := st.Val.(*ssa.Call)
+		if !ok || !sum.Call.IsInvoke() || sum.Call.Method.Name() != "Sum" || an.Expr(sum.Call.Args[0]) != "nil" {
+			r.Fail(rule, key, pos, "the annex hash is not a fresh Sum(nil) of a hasher")
+			return
+		}
+		h := sum.Call.Value
+		if hc, ok := c02Strip(h).(*ssa.Call); !ok || an.CallName(hc) != "crypto/sha256.New" {
+			r.Fail(rule, key, pos, "the annex hash is not computed with plain SHA-256")
+			return
+		}
+		// the working copy of the witness stack is a local variable, on the heap or not
+		got := strings.NewReplacer("pop(new)", "pop(stack)", "pop(local)", "pop(stack)").Replace(strings.Join(hashFeed(fn, h, sum), " | "))
+		const pop = "(*lib/script.scrStack).pop(stack)"
+		want := "vlen:uint64(builtin.len(" + pop + ")) | bytes:" + pop
+		r.Check(got == want, rule, key, pos, "sha256(compact size of the annex length | annex)", "the annex hash is computed over ["+got+"], BIP341 defines ["+want+"]")
+	})
+	if n != 1 {
+		r.Fail(rule, key+"/sites", p.Pos(fn.Pos()), fmt.Sprintf("the annex hash is set %d times (once expected)", n))
+	}
+}
